@@ -98,3 +98,17 @@ theorem Comp.below_gap {R : List Rule} (f : Nat → Nat) (G k B : Nat)
         · omega
     · exact Or.inl hge
 #print axioms Comp.below_gap
+
+/-- **C19, substitution.** If every rule of `R` is either the leaf rule `v → ()` of a verified class `v`
+or a rule of `S`, and `v` is productive in `S` (its expansion), then everything computable in `R` is
+computable in `S`: replacing the leaf of a productive class by any rule set that makes it productive
+keeps every class productive. -/
+theorem comp_replace_verified {R S : List Rule} (v : Nat)
+    (hR : ∀ r ∈ R, (r.parent = v ∧ r.children = []) ∨ r ∈ S) (hv : ∀ n, Comp S v n) {c n : Nat}
+    (h : Comp R c n) : Comp S c n := by
+  induction h with
+  | mk r n hr _ ih =>
+    rcases hR r hr with ⟨hp, _⟩ | hS
+    · rw [hp]; exact hv n
+    · exact Comp.mk r n hS ih
+#print axioms comp_replace_verified
